@@ -6491,6 +6491,8 @@ class Path(Shape, MutableSequence):
             p += subpath
         self._segments = p._segments
         self._segments[0].start = prepoint
+        self._length = None
+        self._lengths = None
         return self
 
     def subpath(self, index):
